@@ -2,6 +2,7 @@
    Three kinds of case: a timed window history (raw sliding window or Stats.Get),
    one query observation of the real handler, one concurrent counter run. *)
 From DnsV Require Export Base.Bytes Model.SWindow Model.Stats Model.Counters Spec.Window.
+From DnsV Require Import Spec.Counters.
 Open Scope Z_scope.
 
 (* ---------- observations *)
@@ -24,6 +25,7 @@ Record qobs := mkObs {
   ob_logs : list olog;
   ob_writes : list owrite;
   ob_located : bool;             (* the yield point after the location lookup was reached *)
+  ob_via_ecs : bool;             (* db.EcsLocation on the request's client-subnet option gave the location *)
   ob_ret : N                     (* rcode returned by ServeDNSWithRCODE *)
 }.
 
@@ -151,7 +153,10 @@ Definition obs_sent (o : qobs) : option owrite :=
 
 Definition is_type_key (k : ckey) : bool := match k with KType _ => true | _ => false end.
 
-Definition query_spec (qtype : N) (handled cache_on : bool) (o : qobs) : bool :=
+Definition loc_key (l : loc_res) (via_ecs : bool) : ckey :=
+  match l with LocOk _ id0 id1 => true_loc_class via_ecs id0 id1 | _ => KLocEmpty end.
+
+Definition query_spec (qtype : N) (handled cache_on : bool) (loc : loc_res) (o : qobs) : bool :=
   let d := ob_deltas o in
   (* the query counter exactly once; nothing twice, nothing decremented *)
   (delta KQueries d =? 1)
@@ -182,7 +187,9 @@ Definition query_spec (qtype : N) (handled cache_on : bool) (o : qobs) : bool :=
   && (delta KLocEcs d + delta KLocEmpty d + delta KLocDefault d + delta KLocFallback d
       + delta KLocResolver d =? b2z (ob_located o))
   && (delta KCacheHit d + delta KCacheExpired d + delta KCacheMissed d
-      =? b2z (ob_located o && cache_on)).
+      =? b2z (ob_located o && cache_on))
+  (* and the location counter is the one of the query's location class *)
+  && (if ob_located o then delta (loc_key loc (ob_via_ecs o)) d =? 1 else true).
 
 (* ---------- concurrent counters *)
 Definition to_op (kv : ckey * Z) : cop :=
@@ -224,7 +231,7 @@ Definition model_ok (c : case) : bool :=
 Definition spec_ok (c : case) : bool :=
   match c with
   | CWin _ L ev => monob ev && (0 <? L) && win_spec L [] ev
-  | CQuery q o => query_spec (q_qtype q) (q_reader_ok q) (q_cache_on q) o
+  | CQuery q o => query_spec (q_qtype q) (q_reader_ok q) (q_cache_on q) (q_loc q) o
   | CConc th ex fin => conc_spec th ex fin
   end.
 
